@@ -304,9 +304,10 @@ where
             let sum = max.clone() + &min;
             let l = sum.clone() / T::from_f64(2.0);
             if max.neq(&min).is_true() {
-                let d = max - min;
+                let d = max.clone() - &min;
                 s = if sum.gt(&T::one()).is_true() {
-                    d.clone() / (T::from_f64(2.0) - sum)
+                    // `2 - sum` rounds to 0 when both are just below 1.
+                    d.clone() / ((T::one() - max) + (T::one() - min))
                 } else {
                     d.clone() / sum
                 };
@@ -339,7 +340,7 @@ where
             let saturation = lazy_select! {
                 if min.eq(&max) => T::zero(),
                 else => chroma.clone() /
-                    sum.gt(&T::one()).select(T::from_f64(2.0) - &sum, sum.clone()),
+                    sum.gt(&T::one()).select((T::one() - &max) + (T::one() - &min), sum.clone()),
             };
 
             // Each of these represents an RGB component. The maximum will be false
